@@ -296,6 +296,26 @@ func (s *c19Scope) exp(t string, depth int) string {
 			cands = append(cands, a.ref)
 		}
 	}
+	if strings.HasSuffix(t, "[]") && depth < 2 {
+		// the same output of one callable through two of its aliases, in one
+		// expression (an edit of that output has to rewrite both)
+		byOut := map[string][]string{}
+		var outs []string
+		for _, a := range s.avail {
+			if i := strings.IndexByte(a.ref, '.'); a.t == c19Elem(t) && i > 0 && !strings.HasPrefix(a.ref, "self.") && strings.Count(a.ref, ".") == 1 {
+				o := a.ref[i+1:]
+				if len(byOut[o]) == 0 {
+					outs = append(outs, o)
+				}
+				byOut[o] = append(byOut[o], a.ref)
+			}
+		}
+		for _, o := range outs {
+			if len(byOut[o]) >= 2 && r.Intn(3) != 0 {
+				return "[" + strings.Join(byOut[o], ", ") + "]"
+			}
+		}
+	}
 	if len(cands) > 0 && r.Intn(4) != 0 {
 		return hx.Pick(r, cands)
 	}
